@@ -202,7 +202,7 @@ class _Num(Sym):
     __slots__ = ()
 
     # ---- helpers
-    def _bin(self, o, fn, int_ok=True):
+    def _bin(self, o, fn, int_ok=True, exact=False):
         try:
             a, ka = lift(self)
             b, kb = lift(o)
@@ -220,7 +220,11 @@ class _Num(Sym):
             a = z3.ToReal(a)
         if kb == 'int':
             b = z3.ToReal(b)
-        return mk_real(fn(a, b), _tag_of(self, o))
+        tag = _tag_of(self, o)
+        r = fn(a, b)
+        if tag in NARROW and _CTX is not None and not exact:
+            r = round_to(r, tag)
+        return mk_real(r, tag)
 
     def _cmp(self, o, fn):
         try:
@@ -252,10 +256,10 @@ class _Num(Sym):
         return self._bin(o, lambda a, b: b - a)
 
     def __mul__(self, o):
-        return self._bin(o, lambda a, b: a * b)
+        return self._bin(o, lambda a, b: a * b, exact=_is_pow2(o))
 
     def __rmul__(self, o):
-        return self._bin(o, lambda a, b: b * a)
+        return self._bin(o, lambda a, b: b * a, exact=_is_pow2(o))
 
     def __truediv__(self, o):
         if isinstance(o, _Num) and _CTX is not None and _CTX.ex.purify_div:
@@ -335,14 +339,57 @@ def _purified_div(a, b):
     return SymReal(q, _tag_of(a, b))
 
 
+NARROW = {'np.float32': 24, 'np.float16': 11}      # tag -> significand bits
+
+
+def _is_pow2(v):
+    """Multiplying a binary float by +-2^k (k small) is exact, whatever its width."""
+    if isinstance(v, bool) or not isinstance(v, (int, float)):
+        return False
+    v = abs(v)
+    if v == 0:
+        return True
+    m, _ = math.frexp(v)
+    return m == 0.5 and 2.0 ** -20 <= v <= 2.0 ** 20
+
+
 def _tag_of(a, b):
+    """Result type tag of a binary operation under NumPy's promotion rules, as far as the
+    repo's isinstance dispatch and float widths are concerned (python scalars are weak)."""
     ta = getattr(a, 'tag', None)
     tb = getattr(b, 'tag', None)
-    # result type of numpy/python float arithmetic: we only distinguish what
-    # the repo's isinstance dispatch can see.
-    if ta == 'float' or tb == 'float':
-        return 'float'
-    return ta or tb or 'float'
+    if ta is None or tb is None:
+        # python int/float operand: weak, the numpy scalar's type wins
+        return ta or tb or 'float'
+    if ta == tb:
+        return ta
+    for t in ('np.float64', 'float'):
+        if ta == t or tb == t:
+            return 'np.float64' if 'np.float64' in (ta, tb) else 'float'
+    if ta in NARROW and tb in NARROW:
+        return ta if NARROW[ta] >= NARROW[tb] else tb
+    if ta in NARROW:
+        return ta if tb in ('int',) else 'np.float64'
+    if tb in NARROW:
+        return tb if ta in ('int',) else 'np.float64'
+    return ta
+
+
+def round_to(e, tag):
+    """Result of an arithmetic operation carried out in a narrow float type: an (Ackermannised)
+    uninterpreted rounding function of the exact value -- all the engine needs to know is that
+    it is *some* function of the exact result, not the identity."""
+    c = ctx()
+    e = z3.simplify(e)
+    for (t, a, v) in c.roundings:
+        if t == tag and a.eq(e):
+            return v
+    v = c.fresh_real('rnd' + tag[-2:])
+    for (t, a, w) in c.roundings:
+        if t == tag:
+            c.assume(z3.Implies(a == e, w == v))
+    c.roundings.append((tag, e, v))
+    return v
 
 
 def _floordiv(a, b):
@@ -695,7 +742,7 @@ def sym_int(x):
 
 def sym_float(x):
     if isinstance(x, SymReal):
-        return x
+        return x if x.tag == 'float' else SymReal(x.e, 'float')
     if isinstance(x, SymFP):
         return x
     if isinstance(x, SymInt):
@@ -911,6 +958,7 @@ class PathCtx:
         self.outputs = {}           # name -> term/py value (for witness validation)
         self.logs = []              # (argument term, value term) of ln applications
         self.sqrts = []             # (argument term, value term) of sqrt applications
+        self.roundings = []         # (type tag, exact term, rounded value) of narrow-float operations
         self.norm_hints = []        # preferred extra constraints for witnesses / counterexamples
         self.log_range_obligation = None   # name of the obligation guarding arguments of ln (finiteness configs)
 
